@@ -17,7 +17,8 @@ LEVEL = "exploration"
 NEEDS_PTY = True
 N_HIST = {"quick": 25, "thorough": 9000}
 RULE = (
-    "random layout histories (Columns / Pile / Overlay / LineBox / Filler / ListBox scrolling; widgets appearing, "
+    "random layout histories (Columns / Pile / Overlay / LineBox / Filler / ListBox scrolling / grids of flow "
+    "widgets of unequal heights with a moving split / an image widget or a SolidFill as the topmost widget; widgets appearing, "
     "moving, covered, removed and garbage-collected) over mixes of kitty, iterm2 and block image widgets under "
     "kitty, konsole and other identities; after every draw_screen the placements on the incrementally updated "
     "reference terminal must equal those obtained by executing the same canvas on a fresh one; the synchronized-"
@@ -52,7 +53,7 @@ def mkimg(rnd):
 def layout(rnd, widgets, urwid):
     ws = list(widgets)
     rnd.shuffle(ws)
-    k = rnd.choice(["cols", "pile", "overlay", "overlay", "list", "colspile", "filler", "shift", "shift", "bare", "solid"])
+    k = rnd.choice(["cols", "pile", "overlay", "overlay", "list", "colspile", "filler", "shift", "shift", "bare", "solid", "grid", "grid"])
 
     def txt():
         return urwid.Filler(urwid.Text("t" * rnd.randint(1, 30)))
@@ -60,6 +61,35 @@ def layout(rnd, widgets, urwid):
     def deco(w):
         return rnd.choice([w, w, urwid.LineBox(w)])
 
+    if k == "grid":
+        # rows of flow widgets of different heights (multi-line texts, piles of texts) sharing
+        # one movable vertical split; images sit in some of the cells.  Canvas views that
+        # span several shards ("shard tails") end up left of, right of and between the views
+        # that begin in a shard.
+        a = rnd.randint(1, 12)
+
+        def cell():
+            r = rnd.random()
+            if r < 0.35:
+                return urwid.Text("\n".join("m%d" % i for i in range(rnd.randint(1, 3))), wrap="clip")
+            if r < 0.6:
+                return urwid.Pile([urwid.Text("p%d" % i, wrap="clip") for i in range(rnd.randint(1, 3))])
+            return urwid.Text("")
+
+        rows = []
+        imgs = list(ws)
+        for _ in range(rnd.randint(2, 4)):
+            cells = [(a, cell())]
+            for _ in range(rnd.randint(0, 2)):
+                if imgs and rnd.random() < 0.5:
+                    cells.append((rnd.randint(3, 9), imgs.pop()))
+                else:
+                    cells.append((rnd.randint(2, 7), cell()))
+            cells.append(cell())
+            rows.append(urwid.Columns(cells))
+        top = urwid.Filler(urwid.Pile(rows), "top")
+        top._vf_rows = rows
+        return k, top
     if k == "bare":
         # the image widget itself is the topmost widget: its canvas reaches the screen unwrapped
         return k, ws[0]
@@ -147,6 +177,11 @@ def run_history(seed, env, res):
                 if isinstance(top, urwid.Pile) and rnd.random() < 0.5:
                     u0, (tt, _) = top.contents[0]
                     top.contents[0] = (u0, (tt, rnd.randint(0, 4)))
+            elif act == "shift" and kind == "grid":
+                a = rnd.randint(1, 14)
+                for r in top._vf_rows:
+                    w0 = r.contents[0][0]
+                    r.contents[0] = (w0, r.options("given", a))
             elif act == "scroll" and isinstance(top, urwid.ListBox):
                 top.keypress(size, rnd.choice(["down", "up", "page down", "page up"]))
             elif act == "clear":
